@@ -147,7 +147,14 @@ static void writer_phase(rng_t *r, const char *path, int threaded, int big) {
             if (threaded) {
                 /* the threaded writer copies n * bits(signal) bytes: the caller must size for the signal it names; undefined ids copy nothing useful */
                 if (t || id >= 256) CALL("jls_twr_fsr", jls_twr_fsr(tw, id, sid, buf, t ? n : 0));
-                else CALL("jls_twr_fsr", jls_twr_fsr(tw, id, sid, buf, 0));
+                else {
+                    /* an id that names no FSR signal has no documented sample size: a buffer holding n of the widest samples (64 bit) is as large as any reading of the header asks for */
+                    uint32_t m = rng_chance(r, 1, 3) ? 0 : (n > 2000 ? 2000 : n);
+                    uint8_t *wide = malloc(m ? (size_t) m * 8 : 1);
+                    memset(wide, 0x5a, m ? (size_t) m * 8 : 1);
+                    CALL("jls_twr_fsr", jls_twr_fsr(tw, id, sid, wide, m));
+                    free(wide);
+                }
             } else if (rng_chance(r, 1, 5) && (!t || t->code == JLS_DATATYPE_F32 || n == 0 || bits == 32)) CALL("jls_wr_fsr_f32", jls_wr_fsr_f32(wr, id, sid, (const float *) buf, n));
             else CALL("jls_wr_fsr", jls_wr_fsr(wr, id, sid, buf, n));
             free(buf);
